@@ -1,0 +1,26 @@
+//go:build verif
+
+package types
+
+import "github.com/ethereum/go-ethereum/common"
+
+// Verification hooks (build tag `verif` only) for property C14: run the two unexported snapshot methods that
+// range over the validator-set MAP on a given set, so that /verif can compare them with their Coq transcription.
+
+func verifSnapshot(vals []common.Address, number uint64) *snapshot {
+	s := &snapshot{Number: number, Validators: make(map[common.Address]struct{}, len(vals)), Recents: map[uint64]common.Address{}}
+	for _, v := range vals {
+		s.Validators[v] = struct{}{}
+	}
+	return s
+}
+
+// VerifSnapshotValidators is (*snapshot).validators on the set {vals}.
+func VerifSnapshotValidators(vals []common.Address) []common.Address {
+	return verifSnapshot(vals, 0).validators()
+}
+
+// VerifSnapshotInturn is (*snapshot).inturn on the set {vals} at block number `number`.
+func VerifSnapshotInturn(vals []common.Address, number uint64, validator common.Address) bool {
+	return verifSnapshot(vals, number).inturn(validator)
+}
